@@ -340,7 +340,7 @@ func explore(ws []*workerProc, e *Entry, tc TierCfg) (*EntryResult, error) {
 					if keep && len(res.Samples) < 6 {
 						res.Samples = append(res.Samples, map[string]any{"entry": e.Name, "status": pr.Status, "path_condition": trimPC(pr.PC), "model": modelMap(pr.Model), "decisions": pr.Decisions, "obligations": pr.Obligations})
 					}
-					if keep && pr.Model != nil && len(res.PassModels) < 8 {
+					if keep && pr.Model != nil && len(pr.Violations) == 0 && len(res.PassModels) < 8 {
 						res.PassModels = append(res.PassModels, pr.Model)
 					}
 				case "assume":
@@ -357,7 +357,11 @@ func explore(ws []*workerProc, e *Entry, tc TierCfg) (*EntryResult, error) {
 				for _, v := range pr.Violations {
 					k := v.Kind + "|" + v.Msg
 					violSeen[k]++
-					if violSeen[k] <= 3 {
+					lim := 3
+					if v.Kind == "steps" {
+						lim = 1
+					}
+					if violSeen[k] <= lim {
 						res.Violations = append(res.Violations, v)
 					}
 				}
@@ -459,7 +463,7 @@ func scratchRoot() string {
 	return r
 }
 
-func runReplay(bin, dir string, c replayCase, timeoutS int, scratch string) replayOutcome {
+func runReplay(bin, dir string, c replayCase, timeoutS int, scratch string, params map[string]int64) replayOutcome {
 	cf := filepath.Join(scratch, fmt.Sprintf("case_%d.json", time.Now().UnixNano()))
 	b, _ := json.Marshal(c)
 	os.WriteFile(cf, b, 0o644)
@@ -470,6 +474,9 @@ func runReplay(bin, dir string, c replayCase, timeoutS int, scratch string) repl
 	cmd := exec.Command(bin, "-test.run", "^TestVerifReplay$", "-test.v", "-test.timeout", fmt.Sprintf("%ds", timeoutS))
 	cmd.Dir = filepath.Join(repoDir, dir)
 	cmd.Env = append(os.Environ(), "VERIF_REPLAY="+cf)
+	for k, v := range params {
+		cmd.Env = append(cmd.Env, fmt.Sprintf("VERIF_PARAM_%s=%d", k, v))
+	}
 	done := make(chan struct{})
 	var out []byte
 	var err error
@@ -808,7 +815,7 @@ func runMain(args []string) int {
 					infra = true
 					continue
 				}
-				oc = runReplay(bin, e.Dir, replayCase{Func: rf, Model: v.Model}, e.ReplayTimeoutS, scratch)
+				oc = runReplay(bin, e.Dir, replayCase{Func: rf, Model: v.Model}, e.ReplayTimeoutS, scratch, e.Tiers[*tier].Params)
 			}
 			reproduced := oc.Status == "violation" || (oc.Status == "timeout" && v.Kind == "steps")
 			switch {
@@ -832,7 +839,7 @@ func runMain(args []string) int {
 				}
 				nViol++
 				rec := map[string]any{"property": *prop, "entry": e.Name, "pkg": e.Pkg, "dir": e.Dir, "func": rf, "kind": v.Kind, "msg": v.Msg,
-					"model": v.Model, "native": oc.Msg, "tier": *tier,
+					"model": v.Model, "native": oc.Msg, "tier": *tier, "params": e.Tiers[*tier].Params,
 					"replay_cmd": fmt.Sprintf("./check %s --replay <this file>", *prop)}
 				jb, _ := json.MarshalIndent(rec, "", " ")
 				sum := sha256.Sum256(jb)
@@ -867,7 +874,7 @@ func runMain(args []string) int {
 					infra = true
 					break
 				}
-				oc := runReplay(bin, e.Dir, replayCase{Func: rf, Model: m}, e.ReplayTimeoutS, scratch)
+				oc := runReplay(bin, e.Dir, replayCase{Func: rf, Model: m}, e.ReplayTimeoutS, scratch, e.Tiers[*tier].Params)
 				if oc.Status == "ok" {
 					passValidated++
 				} else {
@@ -1049,11 +1056,12 @@ func replayMain(args []string) int {
 		return 2
 	}
 	var rec struct {
-		Entry string          `json:"entry"`
-		Func  string          `json:"func"`
-		Kind  string          `json:"kind"`
-		Msg   string          `json:"msg"`
-		Model []interp.SymVar `json:"model"`
+		Entry  string           `json:"entry"`
+		Func   string           `json:"func"`
+		Kind   string           `json:"kind"`
+		Msg    string           `json:"msg"`
+		Model  []interp.SymVar  `json:"model"`
+		Params map[string]int64 `json:"params"`
 	}
 	if err := json.Unmarshal(b, &rec); err != nil {
 		fmt.Println("ERROR:", err)
@@ -1087,7 +1095,7 @@ func replayMain(args []string) int {
 		fmt.Println("ERROR:", err)
 		return 2
 	}
-	oc := runReplay(bin, e.Dir, replayCase{Func: rec.Func, Model: rec.Model}, e.ReplayTimeoutS, scratch)
+	oc := runReplay(bin, e.Dir, replayCase{Func: rec.Func, Model: rec.Model}, e.ReplayTimeoutS, scratch, rec.Params)
 	fmt.Printf("native replay of %s (%s: %s): %s %s\n%s\n", fs.Arg(0), rec.Kind, rec.Msg, oc.Status, oc.Msg, oc.Output)
 	if oc.Status == "violation" || (oc.Status == "timeout" && rec.Kind == "steps") {
 		fmt.Printf("VIOLATION property=%s replay=%s\n", *prop, fs.Arg(0))
